@@ -140,6 +140,11 @@ let parse_dump (s : string) : cval =
 
 (* ---- oracles from the tables of the case line *)
 let oracle_miss = ref false
+(* round 8: strconv.ParseInt(s, 0, bits) is no longer an oracle of the driver: the decoder runs with the modelled literal
+   reader (Model/ConfigIntLiteral.v parse_int); the answers of the real strconv in the oracle table are compared with it
+   on every text the decoder asks about *)
+let literal_disagree = ref false
+let text_of_arg (a : string) : n list = if a = "-" || a = "" then [] else str_of_hex a
 
 let mk_oracles (orc_tok : string) (env_tok : string) (prop_tok : string) =
   let t = parse_table orc_tok and e = parse_table env_tok and p = parse_table prop_tok in
@@ -148,8 +153,19 @@ let mk_oracles (orc_tok : string) (env_tok : string) (prop_tok : string) =
   let orc (k : okind) (s : n list) : z option =
     let kind = match k with
       | ODur -> "d" | OSize -> "z" | OText -> "x" | OEndpoint -> "e" | OUrlPath -> "u"
-      | OInt bits -> "I" ^ string_of_n bits in
-    match look kind s with Some r -> Some (z_of_string r) | None -> None in
+      | OInt bits -> "I" ^ string_of_n bits
+      | OUint bits -> "U" ^ string_of_n bits in
+    let o = (match look kind s with Some r -> Some (z_of_string r) | None -> None) in
+    match k with
+    | OInt bits ->
+        let m = parse_int bits s in
+        if m <> o then literal_disagree := true;
+        m
+    | OUint bits ->
+        let m = parse_uint bits s in
+        if m <> o then literal_disagree := true;
+        m
+    | _ -> o in
   let orcq (s : n list) : q option = match look "F" s with Some r -> Some (q_of_string r) | None -> None in
   (* the environment of the case as a list of NAME=value entries; the model looks the name up itself *)
   let envl = Hashtbl.fold (fun k h acc -> (str_of_string k, str_of_hex h) :: acc) e [] in
@@ -425,10 +441,27 @@ let predict_app (f : string array) (obs : string) : string * string * bool =
          (pred, v, !judged > 0 || v <> "ok")
        end)
 
-let predict (c : string) (obs : string) : string * string * bool =
-  oracle_miss := false;
+(* ---- a whole-value placeholder at an integer option of every width (case kind cast): the modelled literal reader is
+   the specification (C17_integer_placeholder: a text it refuses is an error, a text it takes is that value) *)
+let predict_cast (f : string array) (obs : string) : string * string * bool =
+  let ty = f.(1) and text = text_of_arg f.(2) in
+  let (_, _, orc, _) = mk_oracles f.(3) "-" "-" in
+  List.iter (fun b -> ignore (orc (OInt (n_of_int b)) text); ignore (orc (OUint (n_of_int b)) text)) [8; 16; 32; 64];
+  let w = String.sub ty 1 (String.length ty - 1) in
+  let bits = n_of_int (if w = "N" then 64 else int_of_string w) in
+  let r = if ty.[0] = 'i' then parse_int bits text else parse_uint bits text in
+  let pred = (match r with Some z -> "ok " ^ string_of_z z | None -> "err") in
+  let verdict =
+    if obs = pred then "ok"
+    else if pred = "err" then "BAD:non-integer-placeholder-value-accepted"
+    else if obs = "err" then "BAD:integer-placeholder-value-refused"
+    else "BAD:integer-placeholder-value-wrong" in
+  (pred, verdict, true)
+
+let predict0 (c : string) (obs : string) : string * string * bool =
   let f = Array.of_list (split_blank c) in
   let kind = f.(0) in
+  if kind = "cast" && Array.length f = 4 then predict_cast f obs else
   if kind = "hdr" && Array.length f = 3 then predict_hdr f obs else
   if kind = "prop" && Array.length f = 3 then predict_prop f obs else
   if kind = "env" && Array.length f = 3 then predict_env f obs else
@@ -547,6 +580,26 @@ let predict (c : string) (obs : string) : string * string * bool =
                        | None -> ("ok", false))
                   | None -> ("BAD:bad-path", false))
              | _ -> ("BAD:bad-path", false))
+        | "phc" ->
+            (* the variable holds a text; where neither the literal reader of the option's width nor the text hook of
+               the option's kind takes it, the configuration is in error (C17_integer_placeholder) *)
+            let text = text_of_arg mutarg in
+            (match schema_at gen_registry false false path schema dflt tree with
+             | Some ((s', _), _) ->
+                 let none = function None -> true | Some _ -> false in
+                 let refused =
+                   (match s' with
+                    | SScalar (KInt b) -> Some (none (parse_int b text))
+                    | SScalar (KUint b) -> Some (none (parse_uint b text))
+                    | SScalar KDuration -> Some (none (parse_int (n_of_int 64) text) && none (orc ODur text))
+                    | SScalar KSize -> Some (none (parse_uint (n_of_int 64) text) && none (orc OSize text))
+                    | SScalar (KText b) -> Some (none (parse_int b text) && none (orc OText text))
+                    | _ -> None) in
+                 (match refused with
+                  | Some true -> if obs = "err" then ("ok", true) else ("BAD:non-integer-placeholder-value-accepted", true)
+                  | Some false -> ("ok", false)
+                  | None -> ("ok", false))
+             | None -> ("BAD:bad-path", false))
         | "pht" -> if obs = "err" then ("ok", true) else ("BAD:placeholder-at-non-scalar-position-accepted", true)
         | "ptype" -> if obs = "err" then ("ok", true) else ("BAD:malformed-component-type-accepted", true)
         | "phe" -> if obs = "err" then ("ok", true) else ("BAD:unresolved-placeholder-accepted", true)
@@ -558,5 +611,11 @@ let predict (c : string) (obs : string) : string * string * bool =
       let nt = nt || v <> "ok" in
       let v = if !oracle_miss && v = "ok" then "BAD:oracle-miss" else v in
       (pred, v, nt)
+
+let predict (c : string) (obs : string) : string * string * bool =
+  oracle_miss := false;
+  literal_disagree := false;
+  let (pred, v, nt) = predict0 c obs in
+  if !literal_disagree then (pred, "BAD:integer-literal-reader-disagrees-with-strconv", true) else (pred, v, nt)
 
 let () = run_cases predict
